@@ -65,7 +65,7 @@ impl EmmyLuaEmitter {
 
         // Use ["name"] form for field names with special characters
         let formatted_name = if needs_bracket_notation(name) {
-            format!("[\"{}\"]", name)
+            format!("[\"{}\"]", escape_lua_string(name))
         } else {
             name.to_string()
         };
@@ -87,10 +87,15 @@ impl EmmyLuaEmitter {
     pub fn write_alias_variant(&mut self, value: &str, description: Option<&str>) {
         match description {
             Some(desc) => {
-                let _ = writeln!(self.output, "---| \"{}\" # {}", value, desc);
+                let _ = writeln!(
+                    self.output,
+                    "---| \"{}\" # {}",
+                    escape_lua_string(value),
+                    desc
+                );
             }
             None => {
-                let _ = writeln!(self.output, "---| \"{}\"", value);
+                let _ = writeln!(self.output, "---| \"{}\"", escape_lua_string(value));
             }
         }
     }
@@ -116,6 +121,22 @@ impl EmmyLuaEmitter {
     pub fn finish(self) -> String {
         self.output
     }
+}
+
+/// Escape a schema string so that it can be placed between double quotes in an annotation.
+pub(crate) fn escape_lua_string(text: &str) -> String {
+    let mut escaped = String::with_capacity(text.len());
+    for c in text.chars() {
+        match c {
+            '"' => escaped.push_str("\\\""),
+            '\\' => escaped.push_str("\\\\"),
+            '\n' => escaped.push_str("\\n"),
+            '\r' => escaped.push_str("\\r"),
+            '\0' => escaped.push_str("\\0"),
+            c => escaped.push(c),
+        }
+    }
+    escaped
 }
 
 /// Check if a field name needs bracket notation (contains special characters).
